@@ -189,7 +189,10 @@ func runLive(k *capture, cs *Case) (res liveResult, fail *failure) {
 		}
 		for i, u := range cs.Ups {
 			step = i
-			if cs.Fmt {
+			if cs.Fmt && cs.W%2 == 1 {
+				// a format without arguments: the text itself with its percent signs doubled
+				tw.WriteForLinef(u.L, strings.ReplaceAll(u.T, "%", "%%"))
+			} else if cs.Fmt {
 				tw.WriteForLinef(u.L, "%s", u.T)
 			} else {
 				tw.WriteForLine(u.L, u.T)
@@ -302,7 +305,9 @@ func runBuffered(k *capture, cs *Case) (lines []string, fail *failure) {
 	panicked, val, stack := run.Guard(func() {
 		bt := multiterm.NewBufferedTerm()
 		for _, u := range cs.Ups {
-			if cs.Fmt {
+			if cs.Fmt && cs.W%2 == 1 {
+				bt.WriteForLinef(u.L, strings.ReplaceAll(u.T, "%", "%%"))
+			} else if cs.Fmt {
 				bt.WriteForLinef(u.L, "%s", u.T)
 			} else {
 				bt.WriteForLine(u.L, u.T)
